@@ -37,6 +37,8 @@ type Input struct {
 	Hist []HOp `json:"hist,omitempty"`
 	// Assoc: run the association paths on this case whatever its position (corpus inputs)
 	Assoc bool `json:"assoc,omitempty"`
+	// HistComposite: the history runs on the model with a composite primary key (table tsk)
+	HistComposite bool `json:"hist_composite,omitempty"`
 	// SkipHooks: the writes go through a Session{SkipHooks: true} handle (nothing else changes)
 	SkipHooks bool `json:"skip_hooks,omitempty"`
 }
@@ -770,6 +772,36 @@ func (e *env) assoc(in Input, twins bool) ([][]int64, [][]int64, []string) {
 		fail("joins_nested_preload_first", db.Joins("Keeper").Preload("Keeper.Wards").First(&sc, 2).Error)
 		out = append(out, wardIDs(sc.Keeper))
 	}
+	// conditions written as parenthesised groups joined by a top-level OR, on every path that takes
+	// conditions (the marked copies satisfy the FIRST group)
+	{
+		var os []Owner
+		fail("preload_groups", db.Preload("Kids", "(age >= ?) OR (age < ?)", 0, 0).Order("id").Find(&os).Error)
+		for _, o := range os {
+			out = append(out, kidIDs(o.Kids))
+		}
+		for k := int64(1); k <= 3; k++ {
+			var kids []Kid
+			fail("assoc_find_groups", db.Model(&Owner{ID: k}).Where("(age >= ? AND age < ?) OR (age > ?)", 0, 99, 99).Association("Kids").Find(&kids))
+			out = append(out, kidIDs(kids))
+			out = append(out, []int64{db.Model(&Owner{ID: k}).Where("(age >= ?)or(age > ?)", 0, 99).Association("Kids").Count()})
+		}
+		var ps []Pet
+		fail("joins_on_groups", db.Joins("Keeper", db.Where("(name = ?) OR (name = ?)", "k", "zz")).Order("pets.id").Find(&ps).Error)
+		out = append(out, keeperIDs(ps, true))
+		ps = nil
+		fail("innerjoins_on_groups", db.InnerJoins("Keeper", db.Where("(name = ?) OR (name = ?)", "k", "zz")).Order("pets.id").Find(&ps).Error)
+		ids := []int64{}
+		for _, p := range ps {
+			ids = append(ids, p.ID)
+		}
+		out = append(out, ids)
+		os = nil
+		fail("m2m_preload_groups", db.Preload("Tags", "(name = ?) OR (name = ?)", "t", "zz").Order("id").Find(&os).Error)
+		for _, o := range os {
+			out = append(out, tagIDs(o.Tags))
+		}
+	}
 	// Delete of an owner with its soft-deletable kids selected: the kids are marked (removed only
 	// under Unscoped), kids that are already marked stay as they are
 	{
@@ -970,7 +1002,7 @@ func main() {
 	db, _, _, err := gdb.Open(gdb.Opt{Config: &gorm.Config{NowFunc: func() time.Time { return t2 }}})
 	lib.Must(err)
 	lib.Must(db.SetupJoinTable(&Owner{}, "Labels", &OwnerLabel{}))
-	lib.Must(db.AutoMigrate(&whr.TS{}, &whr.TSZ{}, &Owner{}, &Kid{}, &Keeper{}, &Pet{}, &Ward{}, &Org{}, &Tag{}, &OwnerLabel{}))
+	lib.Must(db.AutoMigrate(&whr.TS{}, &whr.TSZ{}, &TSK{}, &Owner{}, &Kid{}, &Keeper{}, &Pet{}, &Ward{}, &Org{}, &Tag{}, &OwnerLabel{}))
 	e := &env{db: db}
 	out := lib.NewOut(a.Out, "C08")
 	out.PerFile = 60
@@ -979,6 +1011,7 @@ func main() {
 	add := func(kind string, in Input) {
 		if kind != "corpus" && kind != "replay" && in.Hist == nil && len(in.Rows) > 0 {
 			in.Hist = genHist(hr, in.Rows)
+			in.HistComposite = in.Variant == "" && hr.Chance(2, 5)
 		}
 		if kind != "corpus" && kind != "replay" {
 			byID := map[int]whr.Atom{}
@@ -1003,9 +1036,21 @@ func main() {
 		for _, c := range in.Chain {
 			out.Count("call", c.Kind)
 			out.Count("form", c.Unit.Form+"/"+c.Unit.Via)
+			if t := strings.TrimSpace(c.Unit.Tmpl); c.Unit.Tree != nil && c.Unit.Tree.HasConnective() && strings.HasPrefix(t, "(") && strings.HasSuffix(t, ")") {
+				out.Count("raw_between_parentheses", c.Unit.Tree.Kind+fmt.Sprint(len(c.Unit.Tree.Kids)))
+			}
 		}
 		out.Count("rows_selected", fmt.Sprint(len(o.Find)))
 		out.Count("errors", fmt.Sprint(len(o.Errs)))
+		for _, op := range in.Hist {
+			if op.P != nil && op.P.K == "skey" {
+				key := "single"
+				if in.HistComposite {
+					key = "composite"
+				}
+				out.Count("slice_named_write", fmt.Sprintf("%s/%s/%d records/%s key", op.K, op.P.Via, len(op.P.IDs), key))
+			}
+		}
 		if strings.Contains(o.WhereSQL, " OR ") || strings.Contains(strings.ToUpper(o.WhereSQL), "OR") {
 			out.Count("where_has_or", "yes")
 		}
@@ -1042,6 +1087,10 @@ func main() {
 				}
 			}
 		}
+		// raw conditions made of parenthesised groups joined at the top level
+		for _, ch := range groupedChains(g) {
+			add("pattern", Input{Rows: genRows(r), Atoms: in0.Atoms, Chain: ch})
+		}
 		for _, v := range []string{"", "ptr", "embedded", "named", "zerovalue", "writeonly", "createonly", "readonly"} {
 			add("pattern", Input{Rows: genRows(r), Atoms: in0.Atoms, Variant: v})
 			add("pattern", Input{Rows: genRows(r), Atoms: in0.Atoms, Variant: v, SkipHooks: true})
@@ -1071,6 +1120,8 @@ func main() {
 			var u whr.Unit
 			if r.Chance(1, 12) {
 				u = whr.EmptyUnit(r)
+			} else if r.Chance(1, 8) {
+				u = groupedRaw(g, hostile)
 			} else {
 				u = g.GenUnit(2, hostile, true)
 			}
